@@ -15,16 +15,18 @@ PROPERTY_ID = "C05"
 LEVEL = "exploration"
 RULE = ("Random: records of 60..3000 bases, linear or circular, with 2-9 genes built by construction (touching, "
         "overlapping, nested, origin-spanning; CORE gene functions drawn with a bias to the products of the "
-        "protoclusters whose core holds the gene); 1-7 protoclusters, each made as: core = span of 1-3 consecutive "
-        "genes / copy of an earlier protocluster (identical coordinates, or same core with another neighbourhood) / "
+        "protoclusters whose core holds the gene); 1-8 protoclusters (one in ten sideloaded), each made as: core = span "
+        "of 1-3 consecutive genes / copy of an earlier protocluster (identical coordinates, or same core with another "
+        "neighbourhood) / twin (same core, other product, a gene of the core made a core gene of both) / "
         "core inside an earlier core / whole protocluster inside an earlier extent / extent starting -1, 0, +1 bases "
         "from the end of an earlier extent / free arc anchored on earlier edges; neighbourhoods from {0,1,2,5,20,50,"
         "L/10,L/4, sometimes L} per side, clipped on a line, wrapped on a ring (whole-record extents included). "
         "Every case is formed for all permutations of the input (<= 3 protoclusters) or 5 orders, plus the order "
         "Record.create_candidate_clusters() uses, plus through the record itself. Enumeration: one gene per three-base "
         "cell (even cells carry core genes of every product), every multiset of k protocluster shapes (core of 1-2 "
-        "cells at every position x neighbourhood of 0-2 cells) on the line and on the ring; bounds in "
-        "coverage.enumeration_plan. Non-trivial: >= 3 protoclusters with at least two different relations among "
+        "cells at every position x neighbourhood of 0-2 cells) on the line and on the ring, and every multiset of three "
+        "shapes used twice each with different products (three hybrid pairs); bounds in coverage.enumeration_plan / "
+        "twin_enumeration_cells. Non-trivial: >= 3 protoclusters with at least two different relations among "
         "share-a-defining-gene / cores overlap / extents overlap, or a relation through an origin-spanning core or "
         "extent, or two related protoclusters with identical coordinates, or a same-coordinates promotion; distinct = "
         "sha1 of the spec (enumerated cases are distinct by construction).")
@@ -44,7 +46,6 @@ ASSUMPTIONS = [
 ]
 
 HYBRID, INTERLEAVED, NEIGHBOURING, SINGLE = "chemical_hybrid", "interleaved", "neighbouring", "single"
-STRENGTH = {HYBRID: 3, INTERLEAVED: 2, NEIGHBOURING: 1, SINGLE: 0}
 
 
 
@@ -53,10 +54,6 @@ STRENGTH = {HYBRID: 3, INTERLEAVED: 2, NEIGHBOURING: 1, SINGLE: 0}
 def _coords(loc: dict) -> tuple:
     """ (start, end) of a forward-strand area: start of the first part, end of the last """
     return (loc["parts"][0][0], loc["parts"][-1][1])
-
-
-def _minmax(loc: dict) -> tuple:
-    return (min(p[0] for p in loc["parts"]), max(p[1] for p in loc["parts"]))
 
 
 def _parts(loc: dict) -> tuple:
